@@ -321,7 +321,13 @@ class Exec:
                     for o in I.ops[1:]:
                         ov = s.val(env, o)
                         n = resolve(o.ty, s.m).n
-                        if is_sym(ov): raise Unsupported('symbolic GEP index')
+                        if is_sym(ov):
+                            # bounded case split on a symbolic index (harness option gep_split = K: values 0..K-1, one path each)
+                            K = getattr(s, 'gep_split', 0)
+                            if not K: raise Unsupported('symbolic GEP index')
+                            for kk in range(K):
+                                if s.decide(ov == z3.BitVecVal(kk, ov.size())): ov = kk; break
+                            else: raise Cut()
                         ov &= (1 << n) - 1
                         if ov >> (n - 1): ov -= 1 << n
                         if first: off += ov * t.size(s.m); first = False
